@@ -4,6 +4,7 @@ package asm
 
 import (
 	"github.com/llir/llvm/ir"
+	"github.com/llir/llvm/ir/constant"
 	"github.com/llir/llvm/ir/value"
 )
 
@@ -258,4 +259,67 @@ func VfC08_ParseEH() {
 		vfAnd(vfAnd(f.Blocks[3].ID() == 4, cp.ID() == 5), vfAnd(f.Blocks[4].ID() == 6, vfAnd(f.Blocks[5].ID() == 7, cl.ID() == 8)))))
 	_, err2 := ParseString("t2.ll", out)
 	vfAssert("C08.parse.eh.output-accepted", err2 == nil)
+}
+
+// VfC08_ParseBlockAddress: numeric block references from outside the function.
+// A function with four blocks, each named or unnamed (forked), so that named
+// and unnamed blocks interleave in every way; a global table takes the address
+// of every block (by name or by its LLVM number), branches inside refer to the
+// next block the same way: each blockaddress and each branch target is the
+// very block with that name / number, and the module prints and is accepted
+// again.
+//
+//vf:unwind 300
+func VfC08_ParseBlockAddress() {
+	var named [4]bool
+	var ref [4]string // how block k is referred to: %nK or %N
+	id := 0
+	for k := 0; k < 4; k++ {
+		named[k] = vfChoice("named"+string(rune('0'+k)), 2) == 1
+		if named[k] {
+			ref[k] = "%n" + string(rune('0'+k))
+		} else {
+			ref[k] = "%" + string(rune('0'+id))
+			id++
+		}
+	}
+	body := ""
+	for k := 0; k < 4; k++ {
+		if named[k] {
+			body += "n" + string(rune('0'+k)) + ":\n"
+		} else if k > 0 {
+			body += ref[k][1:] + ":\n"
+		}
+		if k < 3 {
+			body += "\tbr label " + ref[k+1] + "\n"
+		} else {
+			body += "\tret void\n"
+		}
+	}
+	src := "@t = global [4 x i8*] [i8* blockaddress(@f, " + ref[0] + "), i8* blockaddress(@f, " + ref[1] + "), i8* blockaddress(@f, " + ref[2] + "), i8* blockaddress(@f, " + ref[3] + ")]\n" +
+		"define void @f() {\n" + body + "}\n"
+	m, err := ParseString("t.ll", src)
+	vfReach("C08.parse.blockaddress")
+	vfObserveStr("src", src)
+	vfAssert("C08.parse.blockaddress.accepted", err == nil)
+	if err != nil {
+		return
+	}
+	f := m.Funcs[0]
+	arr, ok := m.Globals[0].Init.(*constant.Array)
+	vfAssert("C08.parse.blockaddress.table", vfAnd(ok, ok && len(arr.Elems) == 4 && len(f.Blocks) == 4))
+	if !ok || len(arr.Elems) != 4 || len(f.Blocks) != 4 {
+		return
+	}
+	for k := 0; k < 4; k++ {
+		ba, isBA := arr.Elems[k].(*constant.BlockAddress)
+		vfAssert("C08.parse.blockaddress.binds-the-block", vfAnd(isBA, isBA && ba.Block == value.Value(f.Blocks[k])))
+		if k < 3 {
+			vfAssert("C08.parse.blockaddress.branch-binds-the-block", f.Blocks[k].Term.(*ir.TermBr).Target == value.Value(f.Blocks[k+1]))
+		}
+	}
+	out := m.String()
+	vfObserveStr("out", out)
+	_, err2 := ParseString("t2.ll", out)
+	vfAssert("C08.parse.blockaddress.output-accepted", err2 == nil)
 }
